@@ -4,7 +4,7 @@ from . import C03
 
 RULE = ("end to end: complete lifetimes of several key shapes walked signature by signature with lifetime queries in between (shared history "
         "driver with C03), the last signature's callback argument, and every operation on the wiped key; pure accounting: the counter hook "
-        "(real to()/increment()/get_lifetime()) over 1..8 levels of heights {5,10,15,20,25} with boundary and random counters; lifetime queries on real key blobs of 1..8 levels (parameter-byte decoding included)")
+        "(real to()/increment()/get_lifetime()) over 1..8 levels of heights {5,10,15,20,25} with boundary and random counters; lifetime queries on real key blobs of 1..8 levels (parameter-byte decoding included); seeds 00..00, ff..ff, 00..01")
 ASSUMPTIONS = C03.ASSUMPTIONS + ["for tall shapes get_lifetime is exercised through a hook that builds the expanded key without generating trees"]
 
 
@@ -54,12 +54,20 @@ def run(ctx):
             ps = [(rng.choice(otss), lms) for _ in range(L)]
             hs = heights_of(ps)
             N = 1 << sum(hs)
-            seed = rng.bytes_(HASHES[H])
+            # seed values with a special shape included (the wiped key is recognised by its parameter bytes, not by a zero seed)
+            seed = [rng.bytes_(HASHES[H]), bytes(HASHES[H]), b"\xff" * HASHES[H], bytes(HASHES[H] - 1) + b"\1"][(L + lms) % 4]
             cs = boundary_counters(hs, rng, 1)
             cs = sorted(set([0, 1 % N, N - 1] + rng.sample(cs, min(len(cs), 2 if ctx.tier == "quick" else 8))))
             for cnt in cs:
                 lcases.append(Case(lifetime_line(H, sk_blob(H, ps, seed, cnt)), "lifetime-blob/L%d/%s" % (L, "h5" if lms == 5 else "h2"), {"N": N, "c": cnt}))
+    for H in ("S32", "S16", "K24"):
+        for sd in (bytes(HASHES[H]), b"\xff" * HASHES[H]):
+            lcases.append(Case(sign_line(H, sk_blob(H, [(3, 1)], sd, 0), b"special seed"), "sign/special-seed", {"N": 4, "c": 0, "sign": True}))
     for c, a, b in ctx.both(lcases, None):
+        if c.meta.get("sign"):
+            if not a.startswith("ok"):
+                ctx.fail("a fresh key (special seed value) refuses to sign", [c.line], a[:160], "ok")
+            continue
         exp = "ok %d" % (c.meta["N"] - c.meta["c"])
         if a != exp:
             ctx.fail("reported remaining lifetime is not (number of leaves - released signatures)", [c.line], a, exp)
